@@ -60,10 +60,9 @@ CHECKS["C13"] = dict(engine="ahofilter", design="4 C13", technique="regular-lang
    note="Trusted for passing verdicts: the regex->NFA translation and the AC table construction in harness/regex2nfa.py (validated by witness words in both directions); anchors treated as epsilon.")
 CHECKS["C15"] = dict(engine="purity", design="4 C15", technique="TLA+ model checking of Purity.tla (threads x calls x hash-seed permutation; TLC emits the step-level schedules) + replay of every call-level history in fresh processes under different PYTHONHASHSEED + deterministic two-thread schedules (sys.settrace scheduler) + TLC trace validation",
    text=("Purity.tla models a process (hash seed = iteration order of a set of extractors), the shared default tokenizer (only mutable shared state: the compiled-pattern cache) "
-         "and two threads whose calls are four pre-emptible steps; TLC checks that every completed call returns F(text) for every interleaving and call list (and shows the two "
-         "regressions SetOrder / SharedSel violate it). Every call-level history TLC enumerates is replayed with real threads in fresh interpreters under 8 (thorough 32) hash seeds, "
+         "and two threads whose calls are four pre-emptible steps; TLC checks that every completed call returns F(text) -- the winning extractors and the SEQUENCE of the merged token's candidate editions -- for every interleaving and call list (and shows that the original behaviours SetOrder / EdSetOrder and the regression SharedSel violate it). Every call-level history TLC enumerates is replayed with real threads in fresh interpreters under 8 (thorough 32) hash seeds, "
          "texts bound to a corpus containing every text found with unmerged equal-span candidates; a deterministic scheduler (harness/sched.py: threads parked at the call events of eyecite frames, one pre-emption at every k-th yield point and at the first entry of every function, also as the first calls of a fresh process) forces the interleavings inside a call; TLC judges each recorded call against the fresh single-threaded baseline."),
-   note="Trusted: TLC + Json; interleavings inside a call are enumerated at function-call granularity with one pre-emption (bytecode-level races inside one function are only met by the free-running 1 us switch-interval runs); editions compared as sets; digest comparison (sha1/64 bit) of serialised results.")
+   note="Trusted: TLC + Json; interleavings inside a call are enumerated at function-call granularity with one pre-emption (bytecode-level races inside one function are only met by the free-running 1 us switch-interval runs); candidate editions compared in their tuple order; digest comparison (sha1/64 bit) of serialised results.")
 CHECKS["C03"] = dict(engine="filter", design="4 C03", technique="TLA+ model checking of Filter.tla (exact transcription of filter_citations) + list replay + TLC trace validation of get_citations results and merge histories",
    text=("Filter.tla transcribes filter_citations (de-dup by span, stable sort by full span, sweep, final sort by span). TLC checks Sorted, Disjoint, NonRefsKept, Idempotent for every "
          "citation list extraction can produce within bounds (<= 3 non-reference citations with disjoint spans and arbitrary enclosing full spans, <= 2 reference citations inserted "
